@@ -163,7 +163,7 @@ def real_pool_runs(n, seed):
         classes, _ = progen.build_classes(spec, None, as_file=True, header=header)
         dag = build_dag(input_node=classes[spec['input']], output_node=classes[spec['output']])
         graph, index_of = progen.dump_graph(dag, spec)
-        progen.WORLD_INDEX['index_of'] = index_of
+        progen.WORLD_INDEX['index_of'] = {**(progen.WORLD_INDEX.get('index_of') or {}), **index_of}
         if not fragment.in_fragment(graph)[0]:
             continue
         chart = PipelineChart(model_name='m', entrypoint=dag)
